@@ -110,7 +110,7 @@ Record session := { sstart : Z; sjit : Z; scancel : bool; sdata : list byte }.
 Inductive limid := Total | Local (c : nat).
 Inductive ev :=
 | ERes (id : limid) (t n : Z)                       (* successful reservation of n tokens at t *)
-| EBack (id : limid)                                (* a reservation reached the limiter with t < last *)
+| EBack (id : limid) (j : Z)                        (* a reservation reached the limiter with t = last - j < last *)
 | EPull (c : nat) (t batch : Z) (bytes : list byte) (* inner Read(p[:batch]) at t handed over bytes *)
 | EErr (c : nat)                                    (* Read returned a limiter error *)
 | EBlock (c : nat).                                 (* Read waits InfDuration *)
@@ -133,7 +133,7 @@ Definition ready (h : handler) (s : session) : option Z :=
   if 0 <? hlatency h then (if scancel s then None else Some (sstart s + hlatency h + sjit s))
   else Some (sstart s).
 
-Definition back_ev (id : limid) (st : lstate) (t : Z) : list ev := if t <? last st then [EBack id] else [].
+Definition back_ev (id : limid) (st : lstate) (t : Z) : list ev := if t <? last st then [EBack id (last st - t)] else [].
 
 (* one limiter of throttledConn.Read: `if limiter != nil { err := limiter.WaitN(ctx, batchSize) ... }` *)
 Definition lim_phase (Lo : option limiter) (id : limid) (st : lstate) (t batch : Z) : lstate * waitres * list ev :=
@@ -208,8 +208,8 @@ Fixpoint stream_of (c : nat) (tr : list ev) : list byte :=
   | _ :: r => stream_of c r
   end.
 
-Definition is_back (e : ev) : bool := match e with EBack _ => true | _ => false end.
-Definition clock_ordered (tr : list ev) : Prop := forall id, ~ In (EBack id) tr.
+Definition is_back (e : ev) : bool := match e with EBack _ _ => true | _ => false end.
+Definition clock_ordered (tr : list ev) : Prop := forall id j, ~ In (EBack id j) tr.
 
 Definition op_ok (o : op) : Prop := 0 <= olen o /\ 0 <= odelay o /\ 0 <= oj2 o /\ 0 <= oj3 o.
 Definition session_ok (s : session) : Prop := 0 <= sstart s /\ 0 <= sjit s.
